@@ -889,6 +889,7 @@ sendpld_flush(br_ssl_engine_context *rc, int force)
 {
 	size_t xlen;
 	unsigned char *buf;
+	unsigned version;
 
 	if (rc->oxa == rc->oxb) {
 		return;
@@ -912,8 +913,23 @@ sendpld_flush(br_ssl_engine_context *rc, int force)
 			rc->iomode = BR_IO_OUT;
 		}
 	}
+	version = rc->version_out;
+	if (version == 0) {
+		/*
+		 * A server does not know which version to use until it
+		 * has processed the ClientHello; an alert sent earlier
+		 * (e.g. protocol_version) must still travel in a record
+		 * that the peer will not refuse for its version field.
+		 * We use the version of the last record header received
+		 * from the peer, if any.
+		 */
+		version = rc->version_in;
+		if (version == 0) {
+			version = rc->version_min;
+		}
+	}
 	buf = rc->out.vtable->encrypt(&rc->out.vtable,
-		rc->record_type_out, rc->version_out,
+		rc->record_type_out, version,
 		rc->obuf + rc->oxc, &xlen);
 	rc->oxb = rc->oxa = (size_t)(buf - rc->obuf);
 	rc->oxc = rc->oxa + xlen;
